@@ -60,6 +60,7 @@ class CVMTest(BaseStatisticalTest):
         :type value: Optional[numpy.ndarray]
         """
         if value is not None:
+            self._check_array(X=value)
             self._check_sufficient_samples(X=value)
             self._X_ref = value
             # self._X_ref_ = check_array(value)  # noqa: N806
